@@ -49,8 +49,8 @@ def build_cases(t):
                 if f != fmt:
                     steps.append(["SwitchFormat", a])
                     fmt = f
-                    if f != "obj":      # ... and each text format with and without the describing records
-                        rec = 1 - rec
+                    if f != "obj":      # ... and each text format with other describing records than before
+                        rec = (rec + 1) % 3
                         steps.append(["ToggleRecords", rec])
         cases.append({"id": f"p{k}-{name}" + (f"-{perturb[0]}" if perturb else ""), "base": name, "perturb": perturb,
                       "fmt0": b["fmt0"], "steps": steps})
@@ -58,8 +58,8 @@ def build_cases(t):
     # action in both text formats and in memory, so that e.g. "a residue numbered 0 in an mmCIF file" does not depend
     # on which behaviours the simulation happened to deal to which base
     tour = [["ShiftNumbers", 3], ["SwitchFormat", 1], ["ShiftNumbers", 1], ["InsertCodes", 1], ["SwitchFormat", 2],
-            ["RenameChains", 1], ["ToggleRecords", 1], ["PermuteAtoms", 1], ["ShiftNumbers", 2], ["SwitchFormat", 0],
-            ["ShiftNumbers", 3], ["InsertCodes", 2]]
+            ["RenameChains", 1], ["ToggleRecords", 1], ["PermuteAtoms", 1], ["ToggleRecords", 2], ["ShiftNumbers", 2],
+            ["SwitchFormat", 0], ["ShiftNumbers", 3], ["InsertCodes", 2]]
     for name, perturb in bases:
         cases.append({"id": f"tour-{name}" + (f"-{perturb[0]}" if perturb else ""), "base": name, "perturb": perturb,
                       "fmt0": "cif", "steps": [list(x) for x in tour]})
